@@ -5,10 +5,10 @@
 /* sorter.c allocates INITIAL_SORTER_VEC_SIZE (131072) entry pointers per buffer; a 1 MiB array of pointers is flattened by the
  * back end into millions of variables.  The constant is only a capacity hint: the private header is included first and the
  * hint is lowered for this harness; the text of sorter.c itself is compiled unchanged. */
-#include "/repo/mtbl/mtbl-private.h"
+#include "mtbl/mtbl-private.h"
 #undef INITIAL_SORTER_VEC_SIZE
 #define INITIAL_SORTER_VEC_SIZE 8
-#include "/repo/mtbl/sorter.c"
+#include "mtbl/sorter.c"
 #include "spec/ghost.h"
 void *realloc(void *p, size_t n) { VG_A(0, "no vector growth expected in this capped harness"); __CPROVER_assume(0); return p; }
 /* memcpy by its definition (ISO C 7.24.2.1): the built-in model turns a symbolic length into a whole-array update that the
